@@ -49,9 +49,22 @@ func behaviourClass(steps []step, verdictKey string) string {
 			if s.str("b") != "main" {
 				feat["branch"] = true
 			}
+		case "committree":
+			feat["multi"] = true
+			if s.str("b") != "main" {
+				feat["branch"] = true
+			}
+		case "stage", "stash", "switch", "serverloses":
+			feat[s.str("a")] = true
 		default:
 			nver++
 		}
+	}
+	if v, ok := last["expectDeleted"].([]interface{}); ok && len(v) > 0 {
+		feat["deletes"] = true
+	}
+	if v, ok := last["mustRetain"].([]interface{}); ok && len(v) > 0 {
+		feat["retains"] = true
 	}
 	fs := []string{}
 	for k := range feat {
@@ -69,6 +82,19 @@ type behaviour struct {
 }
 
 // sampleBehaviours reads TLC's per-edge output and keeps at most perClass behaviours per class, budget overall.
+// actionsSeen collects the action names occurring in emitted behaviours (vacuity control
+// without the 2x cost of -coverage: an action that never precedes a verdict step is unexercised).
+var actionsSeen = map[string]int{}
+
+func requireActions(c *core.Ctx, names ...string) {
+	for _, n := range names {
+		if actionsSeen[n] == 0 {
+			c.Infra("vacuity: no emitted behaviour contains action %q (seen: %v)", n, actionsSeen)
+		}
+	}
+	c.Set("actions_in_emitted_behaviours", actionsSeen)
+}
+
 func sampleBehaviours(c *core.Ctx, file string, verdictKey string, budget int) ([]*behaviour, int, int) {
 	byClass := map[string][]*behaviour{}
 	total := 0
@@ -81,6 +107,9 @@ func sampleBehaviours(c *core.Ctx, file string, verdictKey string, budget int) (
 			return nil
 		}
 		total++
+		for _, x := range st {
+			actionsSeen[x.str("a")]++
+		}
 		f := fnv.New64a()
 		fmt.Fprintf(f, "%d|", c.Seed)
 		f.Write(raw)
@@ -123,6 +152,14 @@ func applyRepoStep(w *World, s step) (handled bool, err error) {
 	switch s.str("a") {
 	case "commit":
 		return true, w.Commit(s.str("b"), s.str("p"), s.str("blob"), s.num("age"))
+	case "committree":
+		tree := map[string]string{}
+		if m, ok := s["tree"].(map[string]interface{}); ok {
+			for k, v := range m {
+				tree[k], _ = v.(string)
+			}
+		}
+		return true, w.CommitTree(s.str("b"), tree, s.num("age"))
 	case "merge":
 		tree := map[string]string{}
 		if m, ok := s["tree"].(map[string]interface{}); ok {
@@ -294,12 +331,8 @@ func init() {
 			cfg, budget = "Push_t.cfg", 2500
 		}
 		gcfg := writeCfgVariant(c, cfg, "Push_gen.cfg", map[string]string{"Emit = FALSE": "Emit = TRUE"})
-		r := c.TLC(core.TLCOpts{Module: "Push", Cfg: gcfg, Workers: 8, Coverage: true, Timeout: 40 * time.Minute, HeapGB: 12})
+		r := c.TLC(core.TLCOpts{Module: "Push", Cfg: gcfg, Workers: 8, Timeout: 40 * time.Minute, HeapGB: 12})
 		c.MustPass(r, "Push/"+cfg)
-		c.CheckCoverage(r, "Commit", "DamageLocal", "OtherPush", "Push")
-		if !c.Quick() {
-			c.CheckCoverage(r, "Merge")
-		}
 		c.Set("states", r.Distinct)
 		c.Set("transitions", r.Generated)
 		// random walks over the larger configuration (merges, three objects, longer programs)
@@ -314,6 +347,7 @@ func init() {
 		}
 		appendFile(r.OutFile, rs.OutFile)
 		bs, total, nclasses := sampleBehaviours(c, r.OutFile, "verdict", budget)
+		requireActions(c, "commit", "damage", "otherpush", "push", "merge")
 		c.Set("push_edges_emitted", total)
 		c.Set("behaviour_classes", nclasses)
 		if len(bs) < 20 {
